@@ -85,10 +85,18 @@ def relational(cases, impl):
 
 
 def cases(tier, rng, ifaces):
-    out = []
     names = ['echo', 'echo', 'echo', 't1', 'a1', 'a1', 'g1'] + sorted(n for n in ifaces if n.startswith('r'))
-    n = 250 if tier == 'quick' else 3000
-    for g in range(n):
+    return variant_cases(tier, rng, ifaces, names, 250 if tier == 'quick' else 3000)
+
+
+def fresh_cases(tier, rng, ifaces):
+    """thorough tier: the same stream over the run's fresh declaration sets (group numbers apart from the main stream's)"""
+    return variant_cases(tier, rng, ifaces, sorted(ifaces), 600, g0=10 ** 6)
+
+
+def variant_cases(tier, rng, ifaces, names, n, g0=0):
+    out = []
+    for g in range(g0, g0 + n):
         iface = ifaces[rng.choice(names)]
         decls = [d for d in iface.decls if not (d.beh == 'echo' and 'f64' in d.args)]
         units = [U(rng, iface, rng.choice(decls)) for _ in range(rng.randint(1, 4))]
